@@ -64,9 +64,9 @@ type (
 		varsMut                 sync.RWMutex
 	}
 	Query struct {
-		data Map
-		from []any
-		//processed           []any
+		data                Map
+		from                []any
+		processed           []any
 		distinct            bool
 		selectDefinition    SelectDefinition
 		whereDefinition     WhereDefinition
@@ -1529,7 +1529,7 @@ func AggrFunExpr(query *Query, current Map, expr sqlparser.AggrFunc, opts ...Exp
 	}
 	rs, ok := query.singletonExecutions[name]
 	if !ok {
-		slice, err := AggrFuncArgReader(query, map[string]any{"*": query.from}, sqlparser.Exprs{Exprs: expr.GetArgs()})
+		slice, err := AggrFuncArgReader(query, map[string]any{"*": query.processed}, sqlparser.Exprs{Exprs: expr.GetArgs()})
 		if err != nil {
 			return nil, err
 		}
@@ -1809,7 +1809,7 @@ func (query *Query) exec() (result any, err error) {
 		return nil, err
 	}
 	verifStage(query, "group", rs)
-	//query.processed = rs
+	query.processed = slice
 	offset := 0
 	if query.offsetDefinition != -1 {
 		offset = query.offsetDefinition
